@@ -18,9 +18,9 @@ import (
 // returns, and other connections of the server go on being served.
 type teardownFaultCase struct {
 	Native bool     `json:"native_walkgetattr"`
-	Walks  []string `json:"walks"`  // paths bound to fids 1.. (slash separated, "" = a clone of the root)
-	Fail   []int    `json:"fail"`   // indices into Walks (or -1: the root fid 0) whose Close fails at teardown
-	Panic  bool     `json:"panic"`  // the first of them panics instead
+	Walks  []string `json:"walks"` // paths bound to fids 1.. (slash separated, "" = a clone of the root)
+	Fail   []int    `json:"fail"`  // indices into Walks (or -1: the root fid 0) whose Close fails at teardown
+	Panic  bool     `json:"panic"` // the first of them panics instead
 	Errno  int      `json:"errno"`
 	Clunk  int      `json:"clunk"` // index whose fid is clunked first with a failing Close (-1: none)
 }
